@@ -21,6 +21,25 @@ impl InterfaceInner {
             return None;
         }
 
+        // TCP is strictly point to point. Per RFC 1122 §4.2.3.10 a segment addressed to a
+        // broadcast or multicast address must be silently discarded: it must neither reach
+        // a socket (a listener would bind the connection to that address) nor be answered
+        // with a RST (which would carry that address as its source). The same goes for a
+        // loopback destination that is not one of our addresses, which the IP layer lets
+        // through.
+        let dst_is_loopback = match dst_addr {
+            #[cfg(feature = "proto-ipv4")]
+            IpAddress::Ipv4(addr) => addr.is_loopback(),
+            #[cfg(feature = "proto-ipv6")]
+            IpAddress::Ipv6(addr) => addr.is_loopback(),
+        };
+        if self.is_broadcast(&dst_addr)
+            || dst_addr.is_multicast()
+            || (dst_is_loopback && !self.has_ip_addr(dst_addr))
+        {
+            return None;
+        }
+
         let tcp_packet = check!(TcpPacket::new_checked(ip_payload));
         let tcp_repr = check!(TcpRepr::parse(
             &tcp_packet,
